@@ -78,7 +78,10 @@ impl Debug for ConnectionMeta {
                    channel: {:?}, \
                    sni_auth_creds: {:?} \
                }}",
-            sni_ref, self.protocol, self.channel, self.sni_auth_creds,
+            sni_ref,
+            self.protocol,
+            self.channel,
+            self.sni_auth_creds.as_ref().map(|_| "scrubbed"),
         )
     }
 }
